@@ -349,3 +349,35 @@ def scale_pipeline(ctx, R, keys, sizes, why):
                                 'expected': {'trace of the call': bare[key][1], 'other traces': n},
                                 'actual': {'err': c['err'], 'trace of the call': mine, 'other traces': len(c['items']) - len(mine)},
                                 'why': why})
+
+
+WHEADER = ('From Coq Require Import String ZArith NArith List.\nFrom Kd Require Import theories.Base theories.Harness '
+           'theories.DecoderDSL theories.DecoderCases theories.DecoderWindowCases.\nImport ListNotations.\nOpen Scope N_scope.\n'
+           'Open Scope string_scope.')
+
+
+def correspond_windows(ctx, name, R, host, wmetas, res):
+    """wmetas: [(key, events [[code, q, words, tid], ...], gstr)] with the implementation's results: the model reassembles
+    the paths from the window's own lookup records (DecoderWindow.ctx_of_window)"""
+    lks = clist([cN(i) for i, n in sorted(R.codes.items()) if n == 'VFS_LOOKUP'])
+    coq, idx = [], []
+    for i, ((key, evs, gstr), r) in enumerate(zip(wmetas, res)):
+        if 'text' in r:
+            obs = '(inr ' + vlib.cbytes(bytes.fromhex(r['text'])) + ')'
+        elif r.get('err') in (1, 2, 3):
+            obs = f'(inl {r["err"]})'
+        else:
+            ctx.broken.append(('correspondence', {'window_key': key, 'impl': r}))
+            continue
+        ev = clist([f'({cN(c)}, {q}, {clist([cN(w) for w in ws])}, {cN(t)})' for c, q, ws, t in evs])
+        gs = clist([f'({cN(k)}, {vlib.cstr_bytes(t)})' for k, t in dict(gstr).items()])
+        coq.append(f'("{key}", {lks}, {ev}, {gs}, {obs})')
+        idx.append(i)
+    header = WHEADER + f'\nDefinition hostd : host_data := {host_coq(host)}.'
+    bad, errors = vlib.run_model_cases(name, header, 'wcase', '(wcheck hostd)', coq, per_file=100)
+    ctx.traces_validated += len(coq) - len(bad)
+    if errors:
+        ctx.broken.append(('correspondence', f'window case files failed to evaluate: {errors[0]}'))
+    for b in bad[:6]:
+        key, evs, _ = wmetas[idx[b]]
+        ctx.broken.append(('correspondence', {'key': key, 'window': evs[:12], 'impl': res[idx[b]]}))
